@@ -4,7 +4,7 @@ A_TOOLS = "A-TOOLS: Kani 0.68 / CBMC 6.11 / CaDiCaL are correct; rustc MIR of th
 A_SC = "A-SC: atomics are sequentially consistent single-copy words; Ordering arguments and fences are invisible to the verifier"
 A_RG = "A-RG: soundness of rely/guarantee reasoning with additive ownership tokens (Jones/Owicki-Gries) and of the stutter lemma for CAS-retry loops (DESIGN 2.4-2.5); reflexivity/transitivity of the rely are checked, the meta-theorem is not"
 A_EBR = "A-EBR: a closure handed to Guard::defer_unchecked runs exactly once, after every critical section active at the call has ended (C13+C15, themselves only partly decided)"
-A_RANGE = "A-RANGE: strong/weak counts stay below 2^28 (no carry between count-word fields; `as u32` casts exact)"
+A_RANGE = "A-RANGE: strong/weak counts stay below 2^28 (no carry between count-word fields; `as u32` casts exact). The crate does NOT enforce this: 2^29-2 leaked clones or a bulk count >= 2^29 wrap/truncate the 29-bit fields from safe code (native demo replay/f13_count_overflow_demo.rs); outside the checked domain, recorded as an observation in known_findings.txt"
 A_ADDR = "A-ADDR: object addresses are aligned for their type and below 2^60 (the crate's own requirement for the 4 timestamp bits)"
 A_PARAM = "A-PARAM: harness node types stand for every T: RcObject (parametricity); user pop_edges/Drop obey the trait's safety contract"
 
@@ -407,7 +407,7 @@ PROPS["C20"] = dict(
     expected_obligations=["C20.fallback.temporary_participant_lives_on_its_guard_alone", "C20.guard_only.every_guard_operation_keeps_the_participant_alive_and_pinned", "C20.fallback.last_guard_finalizes_the_temporary_participant_exactly_once",
                           "C20.reactivate.works_on_a_participant_kept_by_its_guard_alone", "C20.reactivate_after.works_on_a_participant_kept_by_its_guard_alone", "C15.unpin.finalizes_only_handleless_participant",
                           "C15.finalize.hands_local_bag_to_global_queue", "C18.register.participant_is_reachable_from_registry_head"],
-    trusted_base=[A_TOOLS, "std's thread_local!: that HANDLE.try_with fails exactly after HANDLE's destructor ran, and the order in which thread-local destructors run, are NOT modelled (Kani has no threads and turns thread-locals into statics); default.rs::with_handle is two lines whose fallback branch `f(&collector().register())` is replayed literally by c20_fallback_participant_lifecycle",
+    trusted_base=[A_TOOLS, "std's thread_local!: that HANDLE.try_with fails exactly after HANDLE's destructor ran, and the order in which thread-local destructors run, are NOT modelled (Kani has no threads and turns thread-locals into statics); default.rs::with_handle is two lines whose fallback branch `f(&collector().register())` is replayed by c20_fallback_participant_lifecycle - replayed, not verified in place: `LocalKey::try_with` cannot be stubbed (Kani rejects stubs of generic methods of foreign generic impls), so a change INSIDE with_handle itself (seeded change C14-n2: registering with a fresh collector) is not detected",
                   "the OnceLock-initialised default collector (std) is trusted; 'without deadlocking' is not decided (the engine takes no lock; not a contract)"],
     assumptions=["'every kind of API call made from a destructor' is covered at the level of the EBR engine's guard operations (pin, defer, flush, reactivate, reactivate_after, drop) on the guard-only participant; the Rc-layer calls reduce to these through cs()/defer (A-EBR of C01-C05)",
                  "'without leaking the garbage that thread produced' is the hand-over contract of Local::finalize (c15_finalize) plus A-EBR's 'every deferred closure runs'"],
